@@ -55,6 +55,32 @@ Proof.
   - apply IH. intros j b Hj. specialize (H (S j) b Hj). replace (k + S j)%nat with (S k + j)%nat in H by lia. exact H.
 Qed.
 
+(* every DualVec evaluation on the gradient seeds: value and all partial derivatives *)
+Lemma seeded_program_parts p (x : list R) : okR x p -> forall i xi, nth_error x i = Some xi ->
+  part_DualVec (eval (seed_gradient x) p) nil = eval (T:=R) x p /\
+  is_derive (fun t => eval (T:=R) (replace_at x i t) p) xi (part_DualVec (eval (seed_gradient x) p) (i :: nil)).
+Proof.
+  intros Hok i xi Hi. set (res := eval (seed_gradient x) p).
+  set (envV := mapi (fun j xj => fun t : R => if Nat.eqb j i then t else xj) x).
+  assert (Hat : forall t, at_t envV t = replace_at x i t).
+  { intros t. unfold at_t, envV, replace_at, mapi. rewrite mapi_from_map. reflexivity. }
+  assert (HE : Forall2 (RepX (part:=part_DualVec) (wf:=fun _ => True) i xi) envV (seed_gradient x)).
+  { unfold envV, seed_gradient, mapi. apply Forall2_mapi_from. intros j xj Hj. simpl.
+    destruct (seed_gradient_spec x j xj Hj) as [s [Hs [Hre Hpart]]].
+    unfold seed_gradient in Hs. rewrite nth_error_mapi, Hj in Hs. simpl in Hs. inversion Hs as [Hs']. clear Hs. subst s.
+    assert (Hil : (i < length x)%nat) by (apply nth_error_Some; congruence).
+    split; [exact I|]. split.
+    - etransitivity; [exact Hre|]. cbv beta. destruct (Nat.eqb_spec j i) as [->|]; [congruence|reflexivity].
+    - cbv beta. rewrite (Hpart i Hil). unfold delta. rewrite (Nat.eqb_sym j i). destruct (Nat.eqb i j).
+      + apply (is_derive_id (K:=R_AbsRing) xi).
+      + apply (is_derive_const (V:=R_NormedModule) xj xi). }
+  assert (Hok' : okR (at_t envV xi) p) by (rewrite Hat, (replace_at_same x i xi Hi); exact Hok).
+  destruct (directional_DualVec i xi p envV (seed_gradient x) HE Hok' (exps_true p)) as [_ [A B]].
+  split.
+  - fold res in A. rewrite A, Hat, (replace_at_same x i xi Hi). reflexivity.
+  - fold res in B. eapply is_derive_ext; [|exact B]. intros t; simpl. rewrite Hat. reflexivity.
+Qed.
+
 Theorem gradient_of_program p (x : list R) : okR x p ->
   exists G, gradient (fun v => eval v p) x = (eval (T:=R) x p, G) /\
     forall i xi, nth_error x i = Some xi -> is_derive (fun t => eval (T:=R) (replace_at x i t) p) xi (mget G i 0).
@@ -62,33 +88,29 @@ Proof.
   intros Hok.
   set (res := eval (seed_gradient x) p).
   destruct (gradient_extract infallible (fun a => Ok (eval a p)) x res eq_refl) as [v [G [E [Ev EG]]]].
-  assert (Hall : forall i xi, nth_error x i = Some xi ->
-            part_DualVec res nil = eval (T:=R) x p /\ is_derive (fun t => eval (T:=R) (replace_at x i t) p) xi (part_DualVec res (i :: nil))).
-  { intros i xi Hi.
-    set (envV := mapi (fun j xj => fun t : R => if Nat.eqb j i then t else xj) x).
-    assert (Hat : forall t, at_t envV t = replace_at x i t).
-    { intros t. unfold at_t, envV, replace_at, mapi. rewrite mapi_from_map. reflexivity. }
-    assert (HE : Forall2 (RepX (part:=part_DualVec) (wf:=fun _ => True) i xi) envV (seed_gradient x)).
-    { unfold envV, seed_gradient, mapi. apply Forall2_mapi_from. intros j xj Hj. simpl.
-      destruct (seed_gradient_spec x j xj Hj) as [s [Hs [Hre Hpart]]].
-      unfold seed_gradient in Hs. rewrite nth_error_mapi, Hj in Hs. simpl in Hs. inversion Hs as [Hs']. clear Hs. subst s.
-      assert (Hil : (i < length x)%nat) by (apply nth_error_Some; congruence).
-      split; [exact I|]. split.
-      - etransitivity; [exact Hre|]. cbv beta. destruct (Nat.eqb_spec j i) as [->|]; [congruence|reflexivity].
-      - cbv beta. rewrite (Hpart i Hil). unfold delta. rewrite (Nat.eqb_sym j i). destruct (Nat.eqb i j).
-        + apply (is_derive_id (K:=R_AbsRing) xi).
-        + apply (is_derive_const (V:=R_NormedModule) xj xi). }
-    assert (Hok' : okR (at_t envV xi) p) by (rewrite Hat, (replace_at_same x i xi Hi); exact Hok).
-    destruct (directional_DualVec i xi p envV (seed_gradient x) HE Hok' (exps_true p)) as [_ [A B]].
-    split.
-    - fold res in A. rewrite A, Hat, (replace_at_same x i xi Hi). reflexivity.
-    - fold res in B. eapply is_derive_ext; [|exact B]. intros t; simpl. rewrite Hat. reflexivity. }
   exists G. split.
   - unfold gradient. rewrite E. simpl. rewrite Ev. destruct x as [|x0 xr].
-    + (* no variables: the value is the real evaluation by the real-part theorem on the empty environment *)
-      f_equal. pose proof (re_eval JA_c04_DualVec ltac:(exists 0%nat; simpl; auto) (fun _ => 0%nat) (fun _ => True) p nil nil (Forall2_nil _) Hok) as R0.
+    + f_equal. pose proof (re_eval JA_c04_DualVec ltac:(exists 0%nat; simpl; auto) (fun _ => 0%nat) (fun _ => True) p nil nil (Forall2_nil _) Hok) as R0.
       assert (Hex : exps (fun n => True /\ True) p) by (apply (exps_imp (fun _ => True)); [tauto|apply exps_true]).
       destruct (R0 Hex) as [_ RR]. apply (relR_re _ _ _ RR).
-    + f_equal. apply (Hall 0%nat x0 eq_refl).
-  - intros i xi Hi. rewrite EG. apply (Hall i xi Hi).
+    + f_equal. apply (seeded_program_parts p (x0 :: xr) Hok 0%nat x0 eq_refl).
+  - intros i xi Hi. rewrite EG. apply (seeded_program_parts p x Hok i xi Hi).
+Qed.
+
+(* jacobian of a list of programs: entry (k, i) is the partial derivative of output k with respect to x_i *)
+Theorem jacobian_of_programs (ps : list prog) (x : list R) : List.Forall (okR x) ps -> x <> nil ->
+  exists J, jacobian (fun v => map (eval v) ps) x = (map (eval (T:=R) x) ps, J) /\
+    forall k pk i xi, nth_error ps k = Some pk -> nth_error x i = Some xi ->
+      is_derive (fun t => eval (T:=R) (replace_at x i t) pk) xi (mget J k i).
+Proof.
+  intros Hok Hx.
+  set (res := map (eval (seed_gradient x)) ps).
+  destruct (jacobian_extract infallible (fun a => Ok (map (eval a) ps)) x res eq_refl) as [v [J [E [Ev [_ [_ EJ]]]]]].
+  exists J. split.
+  - unfold jacobian. rewrite E. simpl. rewrite Ev. f_equal. unfold res. rewrite map_map.
+    apply map_ext_in. intros pk Hin. rewrite Forall_forall in Hok.
+    destruct x as [|x0 xr]; [congruence|]. apply (seeded_program_parts pk (x0 :: xr) (Hok pk Hin) 0%nat x0 eq_refl).
+  - intros k pk i xi Hk Hi.
+    assert (Hr : nth_error res k = Some (eval (seed_gradient x) pk)) by (unfold res; rewrite nth_error_map, Hk; reflexivity).
+    rewrite (EJ k _ Hr i). rewrite Forall_forall in Hok. apply (seeded_program_parts pk x (Hok pk (nth_error_In _ _ Hk)) i xi Hi).
 Qed.
